@@ -374,7 +374,9 @@ impl AsServer<'_> {
                 if !is_valid {
                     return None;
                 }
-                if !addr.iter().any(|p| matches!(p, Protocol::P2p(_))) {
+                // All `/p2p` components equal `peer` at this point; make sure the address
+                // also ends with it.
+                if !matches!(addr.iter().last(), Some(Protocol::P2p(_))) {
                     addr.push(Protocol::P2p(peer))
                 }
                 // Only collect distinct addresses.
